@@ -1656,7 +1656,7 @@ func (p *parser) primaryExpression() (Node, error) {
 			return nil, err
 		}
 
-		child, err := p.expression(precedence(lexer.AddToken))
+		child, err := p.expression(precedence(lexer.MultiplyToken))
 		if err != nil {
 			return nil, err
 		}
@@ -1869,7 +1869,7 @@ func (p *parser) primaryExpression() (Node, error) {
 			return nil, err
 		}
 
-		child, err := p.expression(precedence(lexer.SubtractToken))
+		child, err := p.expression(precedence(lexer.MultiplyToken))
 		if err != nil {
 			return nil, err
 		}
